@@ -1548,7 +1548,13 @@ def _arr_method(arr, name):
         a.im = _uf_array("imag", a.shape, "real")      # one imaginary part per array object
         return a.im
     if name == "astype":
-        return lambda dtype, **kw: A.astype(a, _dt(dtype))
+        def _astype(dtype, **kw):
+            # copy=False: numpy returns the array itself when it already has the requested dtype.  The element kinds here
+            # do not tell float32 from float64, so "same kind" stands for the case "same dtype" (the aliasing case)
+            if kw.get("copy", True) is False and _dt(dtype) == a.dtype:
+                return a
+            return A.astype(a, _dt(dtype))
+        return _astype
     if name == "copy":
         return lambda **kw: a.copy()
     if name == "sum":
